@@ -39,6 +39,7 @@ type c14plan struct {
 	seen    int
 	fired   bool
 	inTxOnly bool
+	stmtQueries bool // statements issued as queries (INSERT ... RETURNING) count as statements too
 }
 
 var c14faults = &c14plan{}
@@ -122,6 +123,12 @@ func (c *c14conn) ExecContext(ctx context.Context, q string, args []driver.Named
 }
 
 func (c *c14conn) QueryContext(ctx context.Context, q string, args []driver.NamedValue) (driver.Rows, error) {
+	if c.inTx && c14faults.stmtQueries && c14faults.hit("exec") {
+		if c14faults.kind == "badconn" {
+			return nil, driver.ErrBadConn
+		}
+		return nil, errInjected
+	}
 	return c.inner.(driver.QueryerContext).QueryContext(ctx, q, args)
 }
 
@@ -358,6 +365,7 @@ func c14Run(s *sim.Sim, p *sim.Params) {
 			c14execute(s, dir, execs, backendKind, txns, target, c14fault{kind, pos}, &sample)
 		}
 	}
+	c14concurrent(s, dir, backendKind, &sample)
 	c14bulk(s, dir, backendKind, &sample)
 	c14orm(s, dir, &sample) // (flat, nested and history-mix ORM transactions; own Postgres-struct handle)
 	s.Note("executions", execs)
@@ -760,7 +768,15 @@ func c14ormMix(s *sim.Sim, dir string, sample *[]string) {
 	if _, err := db.Exec("CREATE TABLE IF NOT EXISTS items (id INTEGER PRIMARY KEY, v INTEGER)"); err != nil {
 		s.InfraFail(err.Error())
 	}
-	orm := NewORM(&PostgresDB{config: &Config{}, db: db}, "items")
+	pgdb := &PostgresDB{config: &Config{}, db: db}
+	orm := NewORM(pgdb, "items")
+	// a second ORM value on the same database (another table handle): inside the callback it is
+	// part of the same transaction, whichever ORM value Transaction was called on
+	if _, err := db.Exec("CREATE TABLE IF NOT EXISTS notes (id INTEGER PRIMARY KEY, v INTEGER)"); err != nil {
+		s.InfraFail(err.Error())
+	}
+	orm2 := NewORM(pgdb, "notes")
+	notes, notesInTx := 0, 0
 	model := map[int]int{}
 	nextID, nextV := 1, 100
 	var opErr error
@@ -813,9 +829,34 @@ func c14ormMix(s *sim.Sim, dir string, sample *[]string) {
 		inTx[k] = v
 	}
 	fail := s.Choose(sim.SWork, 2) == 1
+	// a driver-level fault on the k-th statement of the transaction: the connection drops
+	// (driver.ErrBadConn) or the statement fails; whatever the ORM does about it, the outcome is
+	// all of the callback's effects or none
+	dropAt := 0
+	if s.Choose(sim.SWork, 3) == 0 {
+		dropAt = 1 + s.Choose(sim.SWork, 4)
+		c14faults.stmtQueries = true
+		c14faults.arm([]string{"badconn", "exec"}[s.Choose(sim.SWork, 2)], dropAt)
+		s.Fault("orm-statement-fault")
+	}
+	var faultErr error
 	txErr := orm.Transaction(ctx, func(txCtx context.Context) error {
 		for i := 1 + s.Choose(sim.SWork, 4); i > 0 && opErr == nil; i-- {
+			if s.Choose(sim.SWork, 3) == 0 {
+				if _, err := orm2.Create(txCtx, map[string]interface{}{"id": 900 + notesInTx + notes, "v": 1}); err != nil {
+					opErr = err
+					break
+				}
+				notesInTx++
+				log = append(log, "create-note")
+				continue
+			}
 			apply(txCtx, inTx)
+		}
+		if opErr != nil && dropAt > 0 {
+			// the injected fault surfaced as a statement error: the callback gives up with it
+			faultErr, opErr = opErr, nil
+			return faultErr
 		}
 		if opErr != nil {
 			return opErr
@@ -825,7 +866,9 @@ func c14ormMix(s *sim.Sim, dir string, sample *[]string) {
 		}
 		return nil
 	})
-	*sample = append(*sample, fmt.Sprintf("ORM history %v fail=%v -> err=%v opErr=%v", log, fail, txErr, opErr))
+	c14faults.arm("", 0)
+	c14faults.stmtQueries = false
+	*sample = append(*sample, fmt.Sprintf("ORM history %v fail=%v dropAt=%d -> err=%v opErr=%v faultErr=%v", log, fail, dropAt, txErr, opErr, faultErr))
 	if opErr != nil {
 		// the ORM speaks PostgreSQL; where SQLite refuses a statement this sub-check is not exercised
 		s.Probe("orm-mix-not-exercised")
@@ -833,11 +876,13 @@ func c14ormMix(s *sim.Sim, dir string, sample *[]string) {
 	}
 	s.Probe("orm-mix-exercised")
 	want := model
+	wantNotes := notes
 	if txErr == nil {
-		if fail {
+		if fail || faultErr != nil {
 			s.Fail("oracle", "error-swallowed:orm-mix", "the callback returned an error but ORM.Transaction returned nil")
 		}
 		want = inTx
+		wantNotes = notes + notesInTx
 	}
 	got := map[int]int{}
 	rctx, rcancel := context.WithTimeout(context.Background(), 5*time.Second)
@@ -852,6 +897,13 @@ func c14ormMix(s *sim.Sim, dir string, sample *[]string) {
 		got[id] = v
 	}
 	rows.Close()
+	var gotNotes int
+	if err := db.QueryRowContext(rctx, "SELECT COUNT(*) FROM notes").Scan(&gotNotes); err != nil {
+		s.Fail("oracle", "connection-unusable:orm-mix", "after ORM.Transaction: "+err.Error())
+	}
+	if gotNotes != wantNotes {
+		s.Fail("oracle", "effects-survived-rollback:orm-mix", fmt.Sprintf("history %v; ORM.Transaction returned %v; %d rows were written through a second ORM on the same database inside the callback, the notes table holds %d, it must hold %d", log, txErr, notesInTx, gotNotes, wantNotes))
+	}
 	if fmt.Sprint(got) != fmt.Sprint(want) {
 		site := "effects-survived-rollback:orm-mix"
 		if txErr == nil {
@@ -957,5 +1009,85 @@ func c14ormNested(s *sim.Sim, dir string, sample *[]string) {
 	defer pcancel()
 	if perr := orm.Transaction(pctx, func(c context.Context) error { return nil }); perr != nil {
 		s.Fail("oracle", "connection-unusable:orm-nested", "a fault-free ORM.Transaction after the nested one failed: "+perr.Error())
+	}
+}
+
+// c14concurrent: two callers, two transactions on one handle. While A's callback is between two
+// of its statements, B calls Transaction from another goroutine (it has to wait for the handle's
+// only connection, or gets one of its own); each then commits or fails on its own. Whatever the
+// order, the table holds exactly the effects of those that returned nil — neither may become part
+// of the other.
+func c14concurrent(s *sim.Sim, dir string, backendKind int, sample *[]string) {
+	b := c14open(s, dir, 9500, backendKind)
+	defer b.db.Close()
+	aFails, bFails := s.Choose(sim.SWork, 2) == 1, s.Choose(sim.SWork, 2) == 1
+	na, nb := 1+s.Choose(sim.SWork, 3), 1+s.Choose(sim.SWork, 3)
+	startAt := s.Choose(sim.SWork, na+1) // B starts before A's startAt-th statement (na: after the last one)
+	var bErr error
+	bDone := make(chan struct{})
+	runB := func() {
+		defer close(bDone)
+		ctx, cancel := context.WithTimeout(context.Background(), 30*time.Second)
+		defer cancel()
+		bErr = b.txfn(ctx, func(tx *sql.Tx) error {
+			for i := 0; i < nb; i++ {
+				if _, err := tx.Exec(fmt.Sprintf("INSERT INTO t (k, v) VALUES (%s, %s)", b.ph(1), b.ph(2)), fmt.Sprintf("b%d", i), i); err != nil {
+					return err
+				}
+			}
+			if bFails {
+				return errors.New("B gives up")
+			}
+			return nil
+		})
+	}
+	started := false
+	ctx, cancel := context.WithTimeout(context.Background(), 30*time.Second)
+	defer cancel()
+	aErr := b.txfn(ctx, func(tx *sql.Tx) error {
+		for i := 0; i <= na; i++ {
+			if i == startAt && !started {
+				started = true
+				go runB()
+				s.Settle() // B runs until it waits for the connection (or, joined to A's transaction, finishes)
+			}
+			if i == na {
+				break
+			}
+			if _, err := tx.Exec(fmt.Sprintf("INSERT INTO t (k, v) VALUES (%s, %s)", b.ph(1), b.ph(2)), fmt.Sprintf("a%d", i), i); err != nil {
+				return err
+			}
+		}
+		if aFails {
+			return errors.New("A gives up")
+		}
+		return nil
+	})
+	<-bDone
+	got, rerr := c14read(b.db)
+	if rerr != nil {
+		s.Fail("oracle", "connection-unusable:"+b.name, "after two concurrent transactions: "+rerr.Error())
+	}
+	want := c14model{}
+	if aErr == nil {
+		if aFails {
+			s.Fail("oracle", "error-swallowed:"+b.name, "A's callback returned an error but Transaction returned nil")
+		}
+		for i := 0; i < na; i++ {
+			want[fmt.Sprintf("a%d", i)] = i
+		}
+	}
+	if bErr == nil {
+		if bFails {
+			s.Fail("oracle", "error-swallowed:"+b.name, "B's callback returned an error but Transaction returned nil")
+		}
+		for i := 0; i < nb; i++ {
+			want[fmt.Sprintf("b%d", i)] = i
+		}
+	}
+	*sample = append(*sample, fmt.Sprintf("%s concurrent: A %d stmts fails=%v -> %v; B (started before A's statement %d) %d stmts fails=%v -> %v; table %v", b.name, na, aFails, aErr, startAt, nb, bFails, bErr, got))
+	s.Probe("concurrent-transactions-checked")
+	if got.String() != want.String() {
+		s.Fail("oracle", "concurrent-transactions-mixed:"+b.name, fmt.Sprintf("A (%d inserts, callback fails=%v) returned %v; B, called from another goroutine before A's statement %d (%d inserts, callback fails=%v), returned %v; the table is %v, it must be %v", na, aFails, aErr, startAt, nb, bFails, bErr, got, want))
 	}
 }
